@@ -51,7 +51,7 @@ func drawNaming(rt *rapid.T, n int) (names []string, patterns []string, label st
 	}
 	dirPool := []string{"d", "d-a", "d.b", "d0", "dA", "d_z", "da", "d-", "dd"}
 	filePool := []string{"x10.yaml", "x9.yaml", "xA.yaml", "xa.yaml", "x_.yaml", "x-.yaml", "x1.yaml", "x.yaml", "xZ.yaml"}
-	explicitPool := []string{"zeta.yaml", "Alpha.yaml", "m/beta.yaml", "m/Alpha.yaml", "10.yaml", "9.yaml", "a.yml", "conf.d/z.yaml", "conf.d/a.yaml"}
+	explicitPool := []string{"zeta.yaml", "Alpha.yaml", "m/beta.yaml", "m/Alpha.yaml", "10.yaml", "9.yaml", "a.yml", "conf.d/z.yaml", "conf.d/a.yaml", "region,eu.yaml", "a,b/c,d.yaml", `q"r.yaml`, "with space.yaml", "tab\tname.yaml"}
 	switch rapid.IntRange(0, 4).Draw(rt, "scheme") {
 	case 0:
 		ns := group(explicitPool, n, "explicit")
